@@ -935,6 +935,16 @@ def run_cases(chk, root, cases, n, shards=16):
             index[rid] = (c, int(rid.rsplit(".", 1)[1]))
             lines.append(l)
     out = run_sharded(HX, ["c13", OKANE], lines, shards=shards, timeout=3000)
+    # the okane binary can be momentarily absent while ANOTHER check running in parallel relinks it: retry those cases
+    for attempt in range(3):
+        again = [i for i, rec in enumerate(out) if " bad=spawn" in rec]
+        if not again:
+            break
+        import time as _t
+        _t.sleep(3 + 2 * attempt)
+        redo = run_sharded(HX, ["c13", OKANE], [lines[i] for i in again], shards=1, timeout=3000)
+        for i, rec in zip(again, redo):
+            out[i] = rec
     res = []
     for rec in out:
         rid, kv = parse_record(rec)
